@@ -905,7 +905,12 @@ def cases(tier, seed):
                 for i in range(20):
                     out.append({"kind": "mat", **c, "depth": 4, "first": i})
             else:
-                out.append({"kind": "mat", **c, "depth": 3 if nd <= 2 else (2 if nd == 3 else 1)})
+                d = 3 if nd <= 2 else (2 if nd == 3 else 1)
+                if c["yield"] != "none" and c["branches"] != "none" and c["dim"] == "PlaneStress":
+                    # the plane-stress iteration raises on the non-converging steps of these behaviours (20 x 20 local
+                    # iterations per raise): depth 3 costs > 100 CPU-s per behaviour
+                    d = min(d, 2)
+                out.append({"kind": "mat", **c, "depth": d})
         sims = {k: 4 for k in SIM_CFGS}
         sims["J2lin-PE-QUAD4"] = sims["J2voceAF-PS-mixed"] = 5
     out.sort(key=lambda c: -c["depth"])  # the expensive cases first (load balance)
@@ -932,7 +937,7 @@ def describe(tier, seed):
                  "simulation: ALL valid operation sequences of depth 4 (J2 plane strain QUAD4), 3 (J2+Voce+AF plane stress TRI3+QUAD4; J2 3D HEXA8), 2 (Norton TRI3; Maxwell QUAD4)")
     else:
         bound = ("material: the FULL product of behaviour factors the constructor accepts (1737 = 579 x 3 dimensions, x 2 solvers inside each case); ALL strain paths of length "
-                 "<= 4 for the default and its single deviations in yield / hardening / kinematic / rate / dimension, <= 3 within 2 deviations, <= 2 at 3 deviations, 1 for the rest. "
+                 "<= 4 for the default and its single deviations in yield / hardening / kinematic / rate / dimension, <= 3 within 2 deviations (<= 2 for yield x Maxwell branch x plane stress), <= 2 at 3 deviations, 1 for the rest. "
                  "simulation: ALL valid operation sequences of depth 5 (J2 plane strain QUAD4; J2+Voce+AF plane stress TRI3+QUAD4) and 4 (3 other material x mesh pairs)")
     return {
         "rule": "E2. material level: state = (total strain, packed z) of one material point, merged by fingerprint (rounded at 1e-7 eps_y); letter = one of 20 strain increments "
